@@ -453,6 +453,28 @@ func genC15(g *G) {
 		aggs := [][]any{{"median", "mode"}, {"mode", "mode"}, {"mode", "median"}, {"quote", "mode"}, {"mode", "quote", "median"}}[g.R.Intn(5)]
 		g.Emit(J{"op": "agg.seq", "f": f, "values": vals, "aggs": aggs}, "seq")
 	}
+	// quote lists handed to the quote aggregator and then to the mode: f+1 identical quotes hold the median
+	// benchmark while their bid / ask differ from the component-wise medians
+	for i := 0; i < g.N(150, 2000); i++ {
+		f := 1 + g.R.Intn(3)
+		q := func(b, m, a int64) any {
+			return svJ(&llo.Quote{Bid: decimal.New(b, 0), Benchmark: decimal.New(m, 0), Ask: decimal.New(a, 0)})
+		}
+		base := int64(10 + g.R.Intn(50))
+		var vals []any
+		for k := 0; k <= f; k++ {
+			vals = append(vals, q(base-4, base, base+4))
+		}
+		for k := 0; k < f; k++ {
+			vals = append(vals, q(base-3+int64(k), base-2, base+5+int64(k)))
+		}
+		for k := 0; k < f; k++ {
+			vals = append(vals, q(base-1, base+1+int64(k), base+2+int64(k)))
+		}
+		g.R.Shuffle(len(vals), func(a, b int) { vals[a], vals[b] = vals[b], vals[a] })
+		aggs := [][]any{{"quote", "mode"}, {"mode", "quote", "mode"}, {"median", "quote", "mode"}}[g.R.Intn(3)]
+		g.Emit(J{"op": "agg.seq", "f": f, "values": vals, "aggs": aggs}, "seq", "quotes")
+	}
 	// history independence: a call that fails half-way (a value that cannot be serialized, met after some
 	// values were tallied) must leave nothing behind for the next call, which has only f supporters
 	for f := 1; f <= 3; f++ {
